@@ -373,6 +373,7 @@ def c15(proj, rep, tier):
     rep.floor('AG6 comparisons with the gimbal tolerance in the angle extraction', n, 2)
     n = round3b.pg2_ag7_m3g(proj, rep, {'PG2', 'AG7'})
     rep.floor('PG2 / AG7 obligations (spin-j angle wrap, 4 pi sheet test)', n, 2)
+    round3b.dt13_st4(proj, rep, ['numqi.group'])
     rep.assume('numerical accuracy of the recovered angles, the SU(2)->SO(3) homomorphism, Wigner-d and Clebsch-Gordan relations are '
                'value-level: not decided. Decided: batches are converted element-wise (MS1); full-circle angles are never recovered from '
                'one arccos alone (AG1); arccos arguments that reach 1+ulp at degenerate rotations are clipped (F3).')
